@@ -152,7 +152,13 @@ TCompare ==
   /\ CompareOK(st[Ev.obj], st[Ev.args.other])
   /\ UNCHANGED <<st, hl, memo>>
 
+TFaulted ==
+  /\ IsEvent("Faulted")
+  /\ Faulted(Ev.post, Ev.args, Ev.res)
+  /\ UNCHANGED <<st, hl, memo>>
+
 TraceNext ==
+  \/ TFaulted
   \/ TReset \/ TConstruct \/ TInsert \/ TRemove \/ TFlip \/ TRepair \/ TVerdicts
   \/ TEmpty \/ TSetPolicy \/ TLocate \/ THullCreate \/ THullQuery \/ TQueries
   \/ TClone \/ TSerDe \/ TCompare \/ TCanon
